@@ -32,7 +32,21 @@ def run(tier, seed):
     r2 = vlib.run_tlc("MC_Load", MC % "TRUE", wd, "mc_dev", workers=4, timeout=600)
     vlib.require(r2["error"] and "ErrorIsAtomic" in r2["error"], "Load spec lost its sensitivity to a non-atomic commit")
     tr = os.path.join(wd, "trace.ndjson")
-    out = vlib.run_harness(["record", "c10", tr, str(seed), "2" if tier == "thorough" else "1"], timeout=3000)
+    cur = tr + ".current"
+    if os.path.exists(cur):
+        os.remove(cur)
+    try:
+        out = vlib.run_harness(["record", "c10", tr, str(seed), "2" if tier == "thorough" else "1"], timeout=3000)
+    except vlib.ToolError as e:
+        # the recorder died.  If it died while loading one particular input (the marker file names it), the load
+        # aborted the process - "without panicking, aborting or allocating unboundedly" is violated by that input
+        if os.path.exists(cur) and "timed out" not in str(e):
+            fault = json.load(open(cur))
+            v.add_report({"evaluations": 1, "nontrivial": 1, "samples": [],
+                          "mismatches": [{"what": "load-aborted-the-process", "event": fault, "observed": "process aborted (allocation failure or stack overflow) while loading this input",
+                                          "allowed": ["ok", "err"], "devs": []}]}, "M3:record-c10", traces=1)
+            return v.finish("fault_enumeration", "fault enumeration aborted by the input named in the violation", exhaustive=False)
+        raise
     summ = json.loads(out)
     cfg = os.path.join(wd, "trace.cfg")
     rt = vlib.run_tlc("Trace_C10", TR, wd, "trace", workers=1, timeout=3000, env={"TRACE": tr}, heap="8g", deque=True)
@@ -47,7 +61,7 @@ def run(tier, seed):
     vlib.require(summ["counters"]["accepted_by_loader"] > 100, "no corrupted input was accepted by the loader: vacuous")
     v.assumptions += ["allocation bound: peak heap growth during deserialize <= 64 MiB + 4 KiB per input byte, measured by a counting global allocator in the harness",
                       "after an accepted corrupt load only absence of panics is required (the property allows any answers)",
-                      "aborts (stack overflow, OOM kill) would terminate the recorder and surface as a tool error (exit 2), not as a verdict"]
+                      "an abort of the recorder process during a load (allocation failure, stack overflow) is reported as a violation naming the input; a recorder that times out is a tool error"]
     return v.finish("fault_enumeration",
                     "two valid images (a 15-rule engine with every list/category and cosmetic kind; a 4-rule engine): every prefix, every single-bit flip "
                     "(quick: every 3rd byte of the second image), 18 byte substitutions at every structural offset (bytes >= 0x80) and at sampled others, "
